@@ -421,7 +421,7 @@ theorem none_crash_reopens (c : Cfg) (hk : c.kind = .none) (hro : c.ro = false) 
     (progs : List (List NOp)) (hok : ∀ ops ∈ progs, ∀ op ∈ ops, op.ok) (sched : List (Nat × Bool))
     (magic : Nat) (o : OpenOpts) (tail : Mem)
     (hwf : C05.WellFormedFile c sh.st magic) (ho : C05.Matches o c magic)
-    (hr : o.sync = true → 1 ≤ o.retries ∧ o.retries ≤ 255) :
+    (hr : o.sync = true → o.retries ≤ 255) :
     let g0 : Global (List Meta) := { sh := sh, threads := progs.map (fun ops => noneProg c sh.st.cap fuel ops []) }
     let g := (g0.run sched).1
     (match o.cap with
@@ -468,7 +468,7 @@ theorem none_crash_reopens_cap (c : Cfg) (hk : c.kind = .none) (hro : c.ro = fal
     (hcap : match o.cap with
       | some n => sh.st.cap ≤ n ∧ n + 8192 ≤ TWO32
       | none => (sh.st.cap + tail.size) + 8192 ≤ TWO32)
-    (hr : o.sync = true → 1 ≤ o.retries ∧ o.retries ≤ 255) :
+    (hr : o.sync = true → o.retries ≤ 255) :
     let g0 : Global (List Meta) := { sh := sh, threads := progs.map (fun ops => noneProg c sh.st.cap fuel ops []) }
     let g := (g0.run sched).1
     ∃ ghs r fs', NInv sh.st.cap sh.st.allocated sh.st.discarded g ghs ∧
@@ -512,7 +512,7 @@ theorem none_crash_reopened_later_ops (c : Cfg) (hk : c.kind = .none) (hro : c.r
     (progs : List (List NOp)) (hok : ∀ ops ∈ progs, ∀ op ∈ ops, op.ok) (sched : List (Nat × Bool))
     (magic : Nat) (o : OpenOpts) (tail : Mem)
     (hwf : C05.WellFormedFile c sh.st magic) (ho : C05.Matches o c magic)
-    (hr : o.sync = true → 1 ≤ o.retries ∧ o.retries ≤ 255)
+    (hr : o.sync = true → o.retries ≤ 255)
     (n fuel' : Nat) (hn : n < TWO32) (hfuel' : 2 ≤ fuel') :
     let g0 : Global (List Meta) := { sh := sh, threads := progs.map (fun ops => noneProg c sh.st.cap fuel ops []) }
     let g := (g0.run sched).1
@@ -578,7 +578,7 @@ theorem cxCInvOf (m : Mem) (hsz : m.size = 96) : CInv cxC (cxStOf m) [] cxLives 
     rw [hsz]; decide
   · show (8 : Nat) < TWO32
     decide
-  · show 1 ≤ 5 ∧ 5 ≤ 255
+  · show (5 : Nat) ≤ 255
     omega
 
 -- keep the elaborator from evaluating the 96-byte array when it compares states (the kernel still does, below)
